@@ -174,6 +174,176 @@ def check_derive_key(chk, F):
         chk.fail(rid, "XPub|unanalysable", "unanalysable: %s" % e, where, kind="unanalysable")
 
 
+# ---- R16.5 key-level derivation, multipath split and full paths ----------------------------------------------------
+
+def spec_key(text):
+    """independent reading of a BIP-380 key expression -> dict(origin, base, kind, paths, wildcard)"""
+    origin = None
+    rest = text
+    if rest.startswith("["):
+        o, rest = rest[1:].split("]", 1)
+        parts = o.split("/")
+        origin = (parts[0].lower(), [spec_step(x) for x in parts[1:]])
+    parts = rest.split("/")
+    base, steps = parts[0], parts[1:]
+    wildcard = "None"
+    if steps and steps[-1] in ("*", "*h", "*'"):
+        wildcard = "Unhardened" if steps[-1] == "*" else "Hardened"
+        steps = steps[:-1]
+    paths = [[]]
+    for st in steps:
+        if st.startswith("<"):
+            alts = st[1:-1].split(";")
+            paths = [p + [spec_step(a)] for a in alts for p in paths] if len(paths) == 1 else None
+        else:
+            paths = [p + [spec_step(st)] for p in paths]
+    kind = "x" if base.startswith(("xpub", "tpub")) else "single"
+    return {"origin": origin, "base": base, "kind": kind, "paths": paths, "wildcard": wildcard}
+
+
+def spec_step(x):
+    hard = x.endswith(("'", "h"))
+    return ("Hardened" if hard else "Normal", int(x[:-1] if hard else x))
+
+
+def check_key_derivation(chk, F):
+    from . import c10
+    from ..interp import Machine, Adt, PyVec, Panic, ok, err, some, NONE
+    from ..builtins import deref
+    rid = "R16.5"
+    chk.rule(rid, "descriptor keys, over single / x-only / extended keys with every combination of origin, path, multipath "
+                  "step and wildcard: at_derivation_index(i) appends exactly the child i that the wildcard names (normal "
+                  "for /*, hardened for /*h, refused when i >= 2^31), leaves other keys alone, refuses multipath keys and "
+                  "every result with a hardened step (an xpub cannot derive it); into_single_keys yields one key per "
+                  "alternative, in order, with the same origin / xkey / wildcard; full_derivation_path(s) = origin path + "
+                  "path; derive_public_key derives the xkey along exactly that path")
+    DPK = c10.DPK
+    CHILD = c10.CHILD
+    fs = [it["path"] for i in F.impls if i["trait"] == "std::str::FromStr" and i["self_adt"] == DPK
+          for it in i["items"] if it["name"] == "from_str"]
+    names = {}
+    for nm in ("at_derivation_index", "into_single_keys", "full_derivation_path", "full_derivation_paths", "master_fingerprint"):
+        cands = [x for x in F.fn(nm, file="descriptor/key.rs", allow_many=True) if "DescriptorPublicKey" in x and "Definite" not in x
+                 and "{closure" not in x]
+        if len(cands) != 1:
+            chk.fail(rid, "anchor|" + nm, "DescriptorPublicKey::%s not found (%r)" % (nm, cands), kind="unanalysable")
+            return
+        names[nm] = cands[0]
+    dpk = [x for x in F.fn("derive_public_key", file="descriptor/key.rs", allow_many=True) if "DefiniteDescriptorKey" in x][0]
+    chk.saw(fs[0], dpk, *names.values())
+    m = c10.key_machine(F)
+    h = m.hooks
+
+    def child(kind):
+        def f(m_, a, c):
+            i = deref(a[0])
+            return ok(Adt(CHILD, kind, {"index": i})) if 0 <= i < 2 ** 31 else err(Term("InvalidChildNumber", i))
+        return f
+    h["bitcoin::bip32::ChildNumber::from_normal_idx"] = child("Normal")
+    h["bitcoin::bip32::ChildNumber::from_hardened_idx"] = child("Hardened")
+    h["bitcoin::bip32::ChildNumber::is_hardened"] = lambda m_, a, c: deref(a[0]).variant == "Hardened"
+    h["bitcoin::bip32::ChildNumber::is_normal"] = lambda m_, a, c: deref(a[0]).variant == "Normal"
+    h["bitcoin::bip32::DerivationPath::into_child"] = lambda m_, a, c: PyVec(list(deref(a[0]).items) + [deref(a[1])])
+    h["bitcoin::bip32::DerivationPath::child"] = h["bitcoin::bip32::DerivationPath::into_child"]
+    h["bitcoin::bip32::DerivationPath::extend"] = lambda m_, a, c: PyVec(list(deref(a[0]).items) + list(deref(a[1]).items))
+    h["<bitcoin::bip32::DerivationPath as std::convert::From<std::vec::Vec<bitcoin::bip32::ChildNumber>>>::from"] = \
+        lambda m_, a, c: PyVec(list(deref(a[0]).items))
+    h["<bitcoin::bip32::DerivationPath as std::convert::AsRef<[bitcoin::bip32::ChildNumber]>>::as_ref"] = lambda m_, a, c: deref(a[0])
+    h["bitcoin::bip32::Xpub::derive_pub"] = lambda m_, a, c: ok(Adt("bitcoin::bip32::Xpub", "Xpub", {
+        "public_key": ("derived", deref(a[0]), tuple((x.variant, x.fields["index"]) for x in deref(a[2]).items))}))
+    h["bitcoin::PublicKey::new"] = lambda m_, a, c: ("compressed", deref(a[0]))
+    h["bitcoin::bip32::Xpub::fingerprint"] = lambda m_, a, c: ("fingerprint-of", deref(a[0]))
+    h["miniscript::ToPublicKey::to_public_key"] = lambda m_, a, c: ("even-y", deref(a[0]))
+
+    def steps(v):
+        return [(x.variant, x.fields["index"]) for x in deref(v).items]
+
+    def view(k):
+        """(variant, origin, xkey-or-key, [paths], wildcard) of a DescriptorPublicKey value"""
+        k = deref(k)
+        inner = k.fields["0"]
+        o = inner.fields["origin"]
+        origin = None if o.variant == "None" else ("".join("%02x" % b for b in deref(o.fields["0"][0]).items), steps(o.fields["0"][1]))
+        if k.variant == "Single":
+            return ("Single", origin, repr(inner.fields["key"]), [[]], "None")
+        if k.variant == "XPub":
+            return ("XPub", origin, inner.fields["xkey"][1], [steps(inner.fields["derivation_path"])], inner.fields["wildcard"].variant)
+        dp = inner.fields["derivation_paths"]
+        ps = dp.fields["0"] if "0" in dp.fields else list(dp.fields.values())[0]
+        return ("MultiXPub", origin, inner.fields["xkey"][1], [steps(p) for p in deref(ps).items], inner.fields["wildcard"].variant)
+    n_ok = 0
+    texts = c10.key_texts() + c10.key_noncanonical()
+    for s_ in texts:
+        key = s_.replace(c10.XPUB, "XPUB").replace(c10.PK33, "PK33").replace(c10.PK65, "PK65").replace(c10.XONLY, "XONLY")
+        sp = spec_key(s_)
+        try:
+            r = m.call_path(fs[0], [s_])
+            if r.variant != "Ok":
+                chk.fail(rid, key, "key expression does not parse", where="src/descriptor/key.rs")
+                continue
+            K = r.fields["0"]
+            base_view = view(K)
+            multi = len(sp["paths"]) > 1
+            bad = []
+            # the parsed key is the one the text spells
+            want_view = ("Single" if sp["kind"] == "single" else ("MultiXPub" if multi else "XPub"), sp["origin"],
+                         base_view[2], sp["paths"], sp["wildcard"])
+            if base_view != want_view:
+                bad.append("parses to %r, the text spells %r" % (base_view, want_view))
+            # at_derivation_index
+            for i in (0, 7, 2 ** 31 - 1, 2 ** 31, 2 ** 32 - 1):
+                from ..interp import dcopy
+                r2 = m.call_path(names["at_derivation_index"], [dcopy(K), i])
+                if sp["kind"] == "single":
+                    want = ("Ok", base_view)
+                elif multi:
+                    want = ("Err", "Multipath")
+                else:
+                    path = list(sp["paths"][0])
+                    if sp["wildcard"] != "None":
+                        path.append(("Normal" if sp["wildcard"] == "Unhardened" else "Hardened", i))
+                    if sp["wildcard"] != "None" and i >= 2 ** 31:
+                        want = ("Err", "HardenedStep")
+                    elif any(kd == "Hardened" for kd, _ in path):
+                        want = ("Err", "HardenedStep")
+                    else:
+                        want = ("Ok", ("XPub", sp["origin"], base_view[2], [path], "None"))
+                got = ("Ok", view(r2.fields["0"].fields["0"])) if r2.variant == "Ok" else ("Err", r2.fields["0"].variant)
+                if got != want:
+                    bad.append("at_derivation_index(%d) gives %r, expected %r" % (i, got, want))
+                if r2.variant == "Ok" and sp["kind"] != "single":
+                    pk = m.call_path(dpk, [r2.fields["0"], Term("secp")])
+                    wantpk = ("compressed", ("derived", ("xkey", base_view[2]), tuple(want[1][3][0])))
+                    if repr(pk) != repr(wantpk):
+                        bad.append("derive_public_key after at_derivation_index(%d) gives %r, expected %r" % (i, pk, wantpk))
+            # into_single_keys
+            r3 = m.call_path(names["into_single_keys"], [dcopy(K)])
+            got = [view(x) for x in deref(r3).items]
+            want = [base_view] if not multi else [("XPub", sp["origin"], base_view[2], [p], sp["wildcard"]) for p in sp["paths"]]
+            if got != want:
+                bad.append("into_single_keys gives %r, expected %r" % (got, want))
+            # full paths
+            opath = sp["origin"][1] if sp["origin"] else []
+            r4 = m.call_path(names["full_derivation_paths"], [K])
+            got = [steps(x) for x in deref(r4).items]
+            want = [opath + p for p in sp["paths"]]
+            if got != want:
+                bad.append("full_derivation_paths gives %r, expected %r" % (got, want))
+            r5 = m.call_path(names["full_derivation_path"], [K])
+            got = None if r5.variant == "None" else steps(r5.fields["0"])
+            want = None if multi else opath + sp["paths"][0]
+            if got != want:
+                bad.append("full_derivation_path gives %r, expected %r" % (got, want))
+            chk.obligation(rid, not bad, key, "; ".join(bad[:3]).replace(c10.XPUB, "XPUB")[:700], where="src/descriptor/key.rs")
+            n_ok += 1
+        except Unsupported as e:
+            chk.fail(rid, "unanalysable:" + key, "unanalysable: %s" % e, where=e.where, kind="unanalysable")
+            break
+        except Panic as e:
+            chk.fail(rid, key, "panic: %s" % e, where="src/descriptor/key.rs")
+    chk.floor(rid, "key expressions", n_ok, 85)
+
+
 def run(chk):
     F = chk.facts()
     chk.explanation = (
@@ -188,3 +358,4 @@ def run(chk):
     check_sorted_pairing(chk, F)
     check_dispatch(chk, F)
     check_derive_key(chk, F)
+    chk.guard("R16.5", "key-derivation", check_key_derivation, chk, F)
